@@ -36,16 +36,23 @@ import (
 )
 
 type recSigner struct {
-	inner  notation.Signer
-	got    []ocispec.Descriptor
-	opts   []notation.SignerSignOptions
-	plugin map[string]string // PluginAnnotations result (nil: interface not offered)
+	zeroTime bool // the SignerInfo this signer returns states no signing time (a custom signer that does not fill it in)
+	inner    notation.Signer
+	got      []ocispec.Descriptor
+	opts     []notation.SignerSignOptions
+	plugin   map[string]string // PluginAnnotations result (nil: interface not offered)
 }
 
 func (s *recSigner) Sign(ctx context.Context, desc ocispec.Descriptor, opts notation.SignerSignOptions) ([]byte, *signature.SignerInfo, error) {
 	s.got = append(s.got, deepDesc(desc))
 	s.opts = append(s.opts, opts)
-	return s.inner.Sign(ctx, desc, opts)
+	sig, si, err := s.inner.Sign(ctx, desc, opts)
+	if s.zeroTime && si != nil {
+		c := *si
+		c.SignedAttributes.SigningTime = time.Time{}
+		si = &c
+	}
+	return sig, si, err
 }
 
 type recSignerWithAnnotations struct{ *recSigner }
@@ -148,6 +155,9 @@ func main() {
 		var layout string
 		var artifact ocispec.Descriptor
 		tag := "v1"
+		if seq%3 == 1 {
+			tag = "Release-V1" // tags are case-sensitive; the layout also holds ANOTHER artifact tagged release-v1
+		}
 		if onDisk {
 			layout = lib.TempDir("c11")
 			defer os.RemoveAll(layout)
@@ -166,6 +176,15 @@ func main() {
 			}
 			if err := store.Tag(ctx, artifact, tag); err != nil {
 				panic(err)
+			}
+			if tag != strings.ToLower(tag) {
+				dm := ocispec.Manifest{MediaType: ocispec.MediaTypeImageManifest, Config: cfg, Layers: []ocispec.Descriptor{layer}, Annotations: map[string]string{"decoy": "the artifact tagged in lower case"}}
+				dm.SchemaVersion = 2
+				db, _ := json.Marshal(dm)
+				decoy := ocispec.Descriptor{MediaType: ocispec.MediaTypeImageManifest, Digest: digest.FromBytes(db), Size: int64(len(db))}
+				store.Push(ctx, decoy, bytes.NewReader(db))
+				store.Tag(ctx, decoy, strings.ToLower(tag))
+				r.Event("layouts-with-a-decoy-under-the-lower-cased-tag")
 			}
 			layoutPath := layout
 			if seq%4 == 3 {
@@ -261,6 +280,10 @@ func main() {
 			rs.inner = ps
 			r.Event("sequences-signed-by-a-plugin-backed-signer-with-its-own-configuration")
 		}
+		if seq%7 == 5 {
+			rs.zeroTime = true
+			r.Event("sequences-whose-signer-states-no-signing-time")
+		}
 		var sgn notation.Signer = rs
 		if seq%3 == 0 {
 			rs.plugin = map[string]string{"plugin.annotation": "p"}
@@ -325,7 +348,8 @@ func main() {
 			sig := func(kind string) map[string]string {
 				return map[string]string{"kind": kind, "on_disk": fmt.Sprint(onDisk), "meta": o.MetaKind, "call": fmt.Sprint(call)}
 			}
-			mustRefuse := strings.Contains(o.Ref, "mismatch") || strings.Contains(o.MetaKind, "reserved") || strings.Contains(o.MetaKind, "colliding")
+			// (no signing time: there is nothing to state in the annotation that "gives the signing time" - nothing may be pushed)
+			mustRefuse := strings.Contains(o.Ref, "mismatch") || strings.Contains(o.MetaKind, "reserved") || strings.Contains(o.MetaKind, "colliding") || rs.zeroTime
 			if mustRefuse {
 				r.Event("must-refuse-calls")
 				if serr == nil {
